@@ -184,6 +184,38 @@ def run(ctx, model):
         if tree != literal_seq(s):
             ctx.violation("R-ESC", esc_f.relpath, esc_f.short, "escape table", "a string is not matched literally after escaping",
                           esc_f.node.lineno, inp=repr(s), detail=f"{e!r} parses to {tree}")
+    # The blobs above presuppose that escaping works character by character.  A body with a fast path chosen by the
+    # length or by the overall content of the literal (a memo for short texts, "nothing to escape -> return as is")
+    # breaks that presupposition, so every rewritten character is also escaped ALONE in otherwise plain text, at every
+    # length at which the escaping code (and what it calls) compares or computes with an integer constant.
+    from ..consts import interesting_ints, around
+    reach, todo = [], [esc_f, model.method(PRE, "Pregex", "__init__")]
+    while todo:
+        g = todo.pop()
+        if g not in reach and len(reach) < 12:
+            reach.append(g)
+            todo += model._private_callees(g)
+    lens = sorted({1, 2, 3, 9} | {n for n in around(interesting_ints(reach, lo=1, hi=5000)) if n >= 1})
+    lens += [2 * lens[-1] + 7]
+    lone = sorted(changed | touched | {"\\"}) if (changed or touched) else ["\\", ".", "("]
+    ctx.extra["R-ESC lengths"] = lens
+
+    def lone_item(c2, job):
+        c, L = job
+        for s in {c + "a" * (L - 1), "a" * (L - 1) + c, "a" * ((L - 1) // 2) + c + "a" * (L - 1 - (L - 1) // 2)}:
+            e = escape_of(model, s)
+            c2.instance("R-ESC", key=("lone", c, L, s.index(c)), sample=f"__escape of {c!r} alone in plain text of length {L}" if L == lens[-1] else None)
+            try:
+                tree = parse_regex(e)[0]
+            except re.error as ex:
+                tree = f"re.error: {ex}"
+            if tree != literal_seq(s):
+                c2.violation("R-ESC", esc_f.relpath, esc_f.short, "escape fast path",
+                             "a special character that is alone in a literal of this length is not escaped (a length- or content-"
+                             "dependent shortcut bypasses the escape table)", esc_f.node.lineno,
+                             inp=f"{c!r} at offset {s.index(c)} of a literal of length {L}", detail=f"escaped text {e[:60]!r}")
+                return
+    ctx.parallel([(c, L) for c in lone for L in lens], lone_item)
     ctx.floor("R-ESC", ctx.rule_counts.get("R-ESC", 0), 300, "escape evaluations")
 
     # ---------------- R-SANIT
